@@ -79,7 +79,7 @@ fn run_probe(seed: u64, frames: Vec<u8>) -> Obs {
         p.streams_bidi = 10;
         p.streams_uni = 10;
         p.stream_data = 65536;
-        let cfg = WorldCfg { client_params: p.client(), server_params: p.server(), log: LogMode::Noop, with_qlog: true, mtu: 1500 };
+        let cfg = WorldCfg { client_params: p.client(), server_params: p.server(), log: LogMode::Noop, with_qlog: true, mtu: 1500 , ..Default::default() };
         let w = World::new(seed, cfg).await;
         let lat = Duration::from_millis(5);
         w.net.set_profile_towards(server_addr(), FaultProfile { latency: lat, ..Default::default() });
